@@ -61,9 +61,17 @@ def shapes(qc, V=lambda x: x):
     out.append(("array-tuple", qc.from_(t).select(t.a).where(t.b == T.Array(V(1), V(2))).where(T.Tuple(t.a, t.b) == T.Tuple(V(3), V("q")))))
     out.append(("exempt", qc.from_(t).select(T.ValueWrapper("*"), T.ValueWrapper(9, allow_parametrize=False), T.ValueWrapper(Order.asc)).where(t.a == V(1))))
     out.append(("negative-right-of-minus", qc.from_(t).select(t.a - T.ValueWrapper(V(-1)), -T.ValueWrapper(V(-2))).where(t.b == V(-3))))
+    import decimal
+    for i, neg in enumerate([-2.5, decimal.Decimal("-1.5"), -0.0, decimal.Decimal("-0"), -7]):
+        w = lambda: T.ValueWrapper(V(neg))  # noqa
+        out.append(("negative-kinds-%d" % i, qc.from_(t).select(t.a - w(), -w(), t.a - w() * t.b, t.a - (t.b - w()), t.a - (w() == t.b)).where(t.c - w() > V(0))))
     out.append(("distinct-on", PostgreSQLQuery.from_(t).select(t.c + V(5)).distinct_on(fn.Coalesce(t.a, V(7)), t.b).where(t.d == V(8))) if qc is PostgreSQLQuery else None)
     if qc in (P.Query, PostgreSQLQuery, SQLLiteQuery, MySQLQuery):
         out.append(("upsert", qc.into(t).columns("a", "b").insert(V(1), V("x")).on_conflict("a").do_update("b", V("y")).do_update("c", V(5))))
+        if qc is not MySQLQuery:
+            # values in the rows, the conflict target's predicate, the SET list and the DO UPDATE predicate: four clauses rendered by three methods
+            out.append(("upsert-where", qc.into(t).columns("a", "b").insert(V(1), V("x")).on_conflict("a").where(t.d > V(2)).do_update("b", V("y"))
+                        .do_update("c", V(5)).where(t.e < V(6)).where(t.f != V("z"))))
         out.append(("upsert-term", qc.into(t).columns("a", "b").insert(V(1), V(2)).on_conflict("a").do_update("b", t.b + V(1))))
     if qc is MSSQLQuery:
         out.append(("mssql-top", qc.from_(t).select(t.a, T.ValueWrapper(V("v"))).top(2).where(t.b == V(3))))
